@@ -9,7 +9,7 @@ def x_obligations(tier):
     for ki in range(6):
         only = None
         if tier == "quick":
-            only = {0: ["", "h/s/q1/v1/o/"], 1: ["h/a/", "h/s/q1/v1/"], 2: ["h/a/x/", "h/s/q1/v1/o/"], 3: ["h/a/x/v1/", "h/s/q1/v1/"], 4: ["h/s/q1/v1/o/", "h/a/x/v1/"], 5: ["h/s/q1/v1/o/"]}[ki]
+            only = {0: ["", "h/s/q1/v1/o/"], 1: ["h/a/", "h/s/q1/v1/"], 2: ["h/a/x/", "h/s/q1/v1/o/", "SUF"], 3: ["h/a/x/v1/", "h/s/q1/v1/", "SUF"], 4: ["h/s/q1/v1/o/", "h/a/x/v1/", "SUF"], 5: ["h/s/q1/v1/o/", "SUF"]}[ki]
         o += per_part("C03", f"C03-get_as", M, "get_as", tier, extra_env={"VF_KI": str(ki)}, only=only)
     o += per_part("C03", "C03-parent", M, "parent", tier)
     o += per_part("C03", "C03-walk", M, "walk", tier, only=None if tier == "thorough" else ["", "h/a/x/v1/", "h/s/q1/v1/o/"])
